@@ -84,6 +84,19 @@ def _merge(rng):
             'prms': prms}
 
 
+def _multi_merge(rng):
+    """Four or five flat decks, each just under MIN_SEP_VALS[0] above the previous one: the
+    close-group merging has to iterate (merging two groups moves the base of the result)."""
+    h = rng.choice([1000, 2000, 3000])
+    sep_val = rng.choice([300, 400])
+    decks = []
+    for _ in range(rng.randint(4, 5)):
+        decks.append((h, 2, rng.choice([0.5, 0.7, 0.9])))
+        h += rng.randint(int(sep_val * 0.84), sep_val - 8)
+    return {'rows': decks_rows(rng, rng.choice([1, 2]), rng.randint(25, 40), decks, max_types=5),
+            'prms': {'MIN_SEP_VALS': [sep_val, 1000], 'SLICING_PRMS': {'distance_threshold': 0.1}}}
+
+
 def _split(rng):
     """Two sub-decks that slicing/grouping keep together and the mixture model separates."""
     h = rng.choice([1500, 2200, 3000])
@@ -261,7 +274,8 @@ def _demo_like(rng):
 
 
 RECIPES = {
-    'single': _single, 'two-far': _two_far, 'merge': _merge, 'split': _split,
+    'single': _single, 'two-far': _two_far, 'merge': _merge, 'multi-merge': _multi_merge,
+    'split': _split,
     'merge+split': _merge_split, 'rng-sensitive': _rng_sensitive, 'borderline': _borderline,
     'asym-split': _asym_split, 'two-valued': _two_valued, 'high-close': _high_close,
     'no-hit': _no_hit,
